@@ -1,6 +1,350 @@
-//! C19 -- (stub; see DESIGN.md section 5)
-use crate::util::Args;
+//! C19 -- \input, \endinput, \read on the real VM with an in-memory file system.
+//!
+//! Part A (F): file trees over the item alphabet of TexInput.tla are rendered to TeX files and run;
+//! the delivered tokens are recorded for TLC.  Part B (R): every history of \openin / \read /
+//! \ifeof / \closein over the TLC-dumped stream automaton is run as one program and each
+//! operation's observation is looked up in the table.
+use crate::lts::Lts;
+use crate::util::{quiet_panics, Args, Out, Rng};
+use crate::vmh::{self, TokV};
+use serde_json::{json, Value};
 
-pub fn dispatch(_cmd: &str, _args: &Args) -> Option<i32> {
-    None
+pub fn dispatch(cmd: &str, args: &Args) -> Option<i32> {
+    Some(match cmd {
+        "c19-files" => files_events(args),
+        "c19-streams" => streams_walk(args),
+        _ => return None,
+    })
+}
+
+fn fname(i: usize) -> String {
+    // letters only: a file name ends at the first space or non-character token
+    let mut s = String::from("f");
+    let mut n = i;
+    loop {
+        s.push((b'a' + (n % 26) as u8) as char);
+        n /= 26;
+        if n == 0 {
+            break;
+        }
+    }
+    s
+}
+
+const XC: [char; 8] = ['?', 'A', 'B', 'C', 'D', 'E', 'F', 'G'];
+
+fn render_file(lines: &[Value], final_newline: bool) -> String {
+    let mut s = String::new();
+    for (li, line) in lines.iter().enumerate() {
+        for it in line.as_array().unwrap() {
+            let c = it["c"].as_u64().unwrap() as usize;
+            match it["t"].as_str().unwrap() {
+                "x" => s.push(XC[c]),
+                "in" => {
+                    s.push_str("\\input ");
+                    s.push_str(&fname(c));
+                    s.push(' ');
+                }
+                "ei" => s.push_str("\\endinput "),
+                "lb" => s.push('{'),
+                "rb" => s.push('}'),
+                k => panic!("unknown item {k}"),
+            }
+        }
+        if li + 1 < lines.len() || final_newline {
+            s.push('\n');
+        }
+    }
+    s
+}
+
+fn delivered(toks: &[vmh::Tok]) -> Vec<Value> {
+    toks.iter()
+        .map(|t| match t {
+            vmh::Tok::Char(' ', _) => json!({"t":"sp","c":0}),
+            vmh::Tok::Char(c, _) => json!({"t":"x","c":XC.iter().position(|x| x == c).map(|i| i as i64).unwrap_or(-1)}),
+            vmh::Tok::Undef(n) if n == "par" => json!({"t":"par","c":0}),
+            _ => json!({"t":"other","c":-1}),
+        })
+        .collect()
+}
+
+fn err_of(o: &vmh::Outcome) -> String {
+    match o {
+        vmh::Outcome::Ok => String::new(),
+        vmh::Outcome::Err { title, rendered } => {
+            // a structured error must carry a location and render
+            if rendered.contains(">>>") { format!("error: {title}") } else { format!("unlocated error: {title}") }
+        }
+        vmh::Outcome::Panic { site, msg } => format!("panic at {site}: {msg}"),
+        vmh::Outcome::Budget => "budget".to_string(),
+    }
+}
+
+/// Run a file tree: files[0] is the main program, files[i] is \input-able as fname(i+1).
+fn run_tree(files: &[Value], final_newline_bits: u64) -> Value {
+    let mut fs: Vec<(String, String)> = vec![];
+    let mut main = String::new();
+    for (i, f) in files.iter().enumerate() {
+        let lines = f.as_array().unwrap();
+        // a file whose last line is empty cannot be written without the final newline
+        let last_empty = lines.last().map(|l| l.as_array().unwrap().is_empty()).unwrap_or(false);
+        let text = render_file(lines, last_empty || (final_newline_bits >> (i % 60)) & 1 == 1);
+        if i == 0 {
+            main = text;
+        } else {
+            fs.push((format!("{}.tex", fname(i + 1)), text));
+        }
+    }
+    let mut vm = vmh::new_vm(&fs, &[]);
+    let r = vmh::run_src::<vmh::H>(&mut vm, "main.tex", &main, 500_000);
+    json!({"files":files,"out":delivered(&r.toks),"err":err_of(&r.outcome),"main":main})
+}
+
+fn it(t: &str, c: u64) -> Value {
+    json!({"t":t,"c":c})
+}
+
+pub fn files_events(args: &Args) -> i32 {
+    quiet_panics();
+    let seed: u64 = args.num("seed", 1);
+    let n: usize = args.num("n", 2000);
+    let mut rng = Rng::new(seed);
+    let mut out = Out::new(args.str("out"));
+    for i in 0..n {
+        // a tree of up to 6 files; file k may input files with a larger number (depth up to 5),
+        // occasionally itself or a smaller one (recursion -> the input-level limit)
+        let nf = 1 + rng.below(6) as usize;
+        let cyclic = rng.chance(1, 25);
+        let mut files: Vec<Value> = vec![];
+        for k in 1..=nf {
+            let nl = rng.below(4) as usize;
+            let mut lines = vec![];
+            for _ in 0..nl {
+                let ni = rng.below(5) as usize;
+                let mut line = vec![];
+                for _ in 0..ni {
+                    match rng.below(10) {
+                        0..=4 => line.push(it("x", 1 + rng.below(7))),
+                        5 => line.push(it("ei", 0)),
+                        _ => {
+                            if cyclic && rng.chance(1, 2) {
+                                line.push(it("in", 1 + rng.below(nf as u64).max(1)));
+                            } else if k < nf {
+                                line.push(it("in", (k as u64 + 1) + rng.below((nf - k) as u64)));
+                            } else {
+                                line.push(it("x", 1 + rng.below(7)));
+                            }
+                        }
+                    }
+                }
+                lines.push(Value::Array(line));
+            }
+            files.push(Value::Array(lines));
+        }
+        // file 1 is the main program and cannot be \input by name in this encoding: map "in 1" to 2
+        for f in files.iter_mut() {
+            for line in f.as_array_mut().unwrap() {
+                for item in line.as_array_mut().unwrap() {
+                    if item["t"] == "in" && item["c"] == 1 {
+                        item["c"] = json!(if nf >= 2 { 2 } else { 1 });
+                    }
+                }
+            }
+        }
+        if nf < 2 {
+            // no file to input: drop "in" items
+            for f in files.iter_mut() {
+                for line in f.as_array_mut().unwrap() {
+                    line.as_array_mut().unwrap().retain(|x| x["t"] != "in");
+                }
+            }
+        }
+        out.line(&run_tree(&files, rng.next() | (i as u64 & 1)));
+    }
+    // chains: depth 5, 50, 90 (must work) and 150 (must fail); the exact boundary near 100 is not probed
+    for depth in [5usize, 50, 90, 150] {
+        let mut files: Vec<Value> = vec![];
+        for k in 1..=(depth + 1) {
+            if k <= depth {
+                files.push(json!([[it("x", 1), it("in", k as u64 + 1), it("x", 2)]]));
+            } else {
+                files.push(json!([[it("x", 3)]]));
+            }
+        }
+        out.line(&run_tree(&files, u64::MAX));
+    }
+    0
+}
+
+// ---- part B: stream automaton walk ------------------------------------------------------------
+
+fn tokv_json(t: &TokV) -> Value {
+    match t {
+        TokV::Char(' ', 10) => json!({"t":"sp","c":0}),
+        TokV::Char(_, 1) => json!({"t":"lb","c":0}),
+        TokV::Char(_, 2) => json!({"t":"rb","c":0}),
+        TokV::Char(c, _) => json!({"t":"x","c":XC.iter().position(|x| x == c).map(|i| i as i64).unwrap_or(-1)}),
+        TokV::Cs(n) if n == "par" => json!({"t":"par","c":0}),
+        _ => json!({"t":"other","c":-1}),
+    }
+}
+
+/// The three read files of MC_TexInputB (TheFiles), rendered from the same token description.
+fn read_files(variant: u64) -> Vec<(String, String)> {
+    let f1 = json!([[it("x", 1)], [it("x", 2)]]);
+    let f2 = json!([[it("x", 1), it("lb", 0)], [it("x", 2), it("rb", 0), it("x", 3)], [it("x", 1), it("rb", 0), it("x", 2)], []]);
+    let f3 = json!([]);
+    vec![
+        ("ra.tex".to_string(), render_file(f1.as_array().unwrap(), variant & 1 == 1)),
+        ("rb.tex".to_string(), render_file(f2.as_array().unwrap(), true)),
+        ("rc.tex".to_string(), render_file(f3.as_array().unwrap(), variant & 2 == 2)),
+    ]
+}
+
+fn op_source(o: &Value) -> String {
+    let n = o["n"].as_u64().unwrap();
+    // TLC's stream numbers 1,2 are bound to TeX streams 0 and 15 (both ends of the range)
+    let sn = if n == 1 { 0 } else { 15 };
+    match o["k"].as_str().unwrap() {
+        "open" => format!("\\openin {sn}={} ", ["nosuchfile", "ra", "rb", "rc"][o["f"].as_u64().unwrap() as usize]),
+        "close" => format!("\\closein {sn} "),
+        "ifeof" => format!("[\\ifeof {sn} T\\else F\\fi]"),
+        "read" => format!("\\read {sn} to \\rl \\rl |"),
+        k => panic!("unknown op {k}"),
+    }
+}
+
+/// Run a history; returns per-op observations.
+fn run_history(lts: &Lts, hist: &[usize], variant: u64) -> (Vec<Value>, String) {
+    let mut src = String::from("\\endlinechar=13 ");
+    for h in hist {
+        src.push_str(&op_source(&lts.ops[*h]));
+        src.push('\n');
+    }
+    let mut vm = vmh::new_vm(&read_files(variant), &[]);
+    vmh::macro_rec_start();
+    let r = vmh::run_src::<vmh::H>(&mut vm, "main.tex", &src, 200_000);
+    let calls = vmh::macro_rec_take();
+    // observations in order: each \rl expansion, each [T]/[F]
+    let mut reads = calls.iter().filter(|c| c.name == TokV::Cs("rl".to_string()));
+    let text = vmh::render(&r.toks);
+    let mut eofs = text.match_indices('[').map(|(i, _)| text[i + 1..].chars().next().unwrap_or('?'));
+    let mut obs = vec![];
+    let err = err_of(&r.outcome);
+    for h in hist {
+        let o = &lts.ops[*h];
+        obs.push(match o["k"].as_str().unwrap() {
+            "read" => match reads.next() {
+                Some(c) => json!({"toks": c.expansion.iter().map(tokv_json).collect::<Vec<_>>(), "err": ""}),
+                None => json!({"toks": [], "err": if err.is_empty() { "missing".to_string() } else { err.clone() }}),
+            },
+            "ifeof" => match eofs.next() {
+                Some('T') => json!(true),
+                Some('F') => json!(false),
+                _ => json!("missing"),
+            },
+            _ => json!(true),
+        });
+    }
+    (obs, src)
+}
+
+fn obs_matches(want: &Value, got: &Value) -> bool {
+    // a read that the spec says fails ("terminal" = the closed stream falls back to the harness's
+    // empty terminal; "file ended within read") must fail with a located error; the text is free
+    if let Some(e) = want.get("err").and_then(|e| e.as_str()) {
+        if !e.is_empty() {
+            let ge = got["err"].as_str().unwrap_or("");
+            return ge.starts_with("error:");
+        }
+    }
+    want == got
+}
+
+pub fn streams_walk(args: &Args) -> i32 {
+    quiet_panics();
+    let lts = Lts::load(args.req("lts"));
+    let dev: Option<Lts> = args.str("devlts").map(Lts::load);
+    let maxlen: usize = args.num("maxlen", 4);
+    // enumerate histories (DFS over the strict table); a history ends after a failing read
+    let mut hists: Vec<Vec<usize>> = vec![];
+    fn rec(lts: &Lts, st: usize, hist: &mut Vec<usize>, left: usize, out: &mut Vec<Vec<usize>>) {
+        let mut extended = false;
+        if left > 0 {
+            for oi in 0..lts.ops.len() {
+                if let Some((t, _)) = &lts.edges[st][oi] {
+                    extended = true;
+                    hist.push(oi);
+                    rec(lts, *t as usize, hist, left - 1, out);
+                    hist.pop();
+                }
+            }
+        }
+        if !extended && !hist.is_empty() {
+            out.push(hist.clone());
+        }
+    }
+    rec(&lts, lts.init, &mut vec![], maxlen, &mut hists);
+    let nthreads = std::thread::available_parallelism().map(|n| n.get()).unwrap_or(4);
+    let next = std::sync::atomic::AtomicUsize::new(0);
+    let acc = std::sync::Mutex::new((0u64, Vec::<Value>::new(), None::<Value>));
+    std::thread::scope(|sc| {
+        for _ in 0..nthreads {
+            sc.spawn(|| {
+                let mut runs = 0u64;
+                let mut viol = vec![];
+                let mut sample = None;
+                loop {
+                    let i = next.fetch_add(1, std::sync::atomic::Ordering::SeqCst);
+                    if i >= hists.len() {
+                        break;
+                    }
+                    let hist = &hists[i];
+                    let (obs, src) = run_history(&lts, hist, i as u64);
+                    runs += 1;
+                    // expected per op from the strict table
+                    let expect = |l: &Lts| -> Option<Vec<Value>> {
+                        let mut st = l.init;
+                        let mut v = vec![];
+                        for h in hist {
+                            let mut o = lts.ops[*h].clone();
+                            o.as_object_mut().unwrap().remove("res");
+                            let oi = *l.op_index.get(&serde_json::to_string(&o).unwrap())?;
+                            let (t, res) = l.edges[st][oi].as_ref()?;
+                            v.push(res.clone());
+                            st = *t as usize;
+                        }
+                        Some(v)
+                    };
+                    let want = expect(&lts).unwrap();
+                    let ok = want.iter().zip(obs.iter()).all(|(w, g)| obs_matches(w, g));
+                    if !ok {
+                        let explained = dev.as_ref().and_then(|d| expect(d)).map(|w| w.iter().zip(obs.iter()).all(|(w, g)| obs_matches(w, g))).unwrap_or(false);
+                        if viol.len() < 200 {
+                            viol.push(json!({"kind":"violation","part":"streams","program":src,"want":want,"got":obs,
+                                "explained_by_deviations":explained,"len":hist.len()}));
+                        }
+                    } else if sample.is_none() && hist.len() >= 3 {
+                        sample = Some(json!({"program":src,"observations":obs}));
+                    }
+                }
+                let mut a = acc.lock().unwrap();
+                a.0 += runs;
+                a.1.extend(viol);
+                if a.2.is_none() {
+                    a.2 = sample;
+                }
+            });
+        }
+    });
+    let a = acc.into_inner().unwrap();
+    let mut out = Out::new(args.str("out"));
+    let mut v = a.1;
+    v.sort_by_key(|x| x["len"].as_u64().unwrap_or(0));
+    for x in v.iter().take(400) {
+        out.line(x);
+    }
+    out.line(&json!({"kind":"summary","part":"streams","histories":hists.len(),"runs":a.0,"lts_states":lts.states.len(),"lts_edges":lts.n_edges,"sample":a.2}));
+    0
 }
